@@ -51,12 +51,14 @@ Theorem C19_rejects : forall f c,
   let lookup := or_else (c_lookup c) (f_lookup f) in
   (or_opt (c_commodity c) (f_commodity f) = None -> lookup <> 0%N -> exists x, effective f c = Err x)
   /\ (lookup <> 3%N -> c_before c <> None -> exists x, effective f c = Err x)
-  /\ (lookup = 3%N -> c_before c = None -> exists x, effective f c = Err x).
+  /\ (lookup = 3%N -> c_before c = None -> exists x, effective f c = Err x)
+  /\ (or_else (c_strict c) (f_strict f) = true -> In 0%N (or_else (c_exports c) (f_exports f)) ->
+      f_eq_declared f = false -> exists x, effective f c = Err x).
 Proof. exact effective_rejects. Qed.
 Print Assumptions C19_rejects.
 
 Example C19_example :
-  let f := mkFile false false [0%N] [] (Some [[97%N]]) (Some [[98%N]]) None None None None 0%N None 2%N in
+  let f := mkFile false false [0%N] [] (Some [[97%N]]) (Some [[98%N]]) None None None None 0%N None 2%N false in
   let c := mkCli (Some true) None None None (Some [[]; [99%N]]) None None None None None in
   option_map (fun e => (e_strict e, e_ras_bal e, e_ras_reg e))
              (match effective f c with Ok e => Some e | Err _ => None end)
